@@ -583,6 +583,9 @@ func c04OtherLimits(w *fw.W, idx int) {
 			w.CoverKey(fmt.Sprintf("macro|lim=%d|%s", lim, t3.Value))
 		}
 	}
+	if !c04TailLimitDeepBodies(w, idx) {
+		return
+	}
 	// a pending sleep is interrupted by cancellation
 	ctx := &c04DoneCtx{scriptedCtx: newScriptedCtx(0)}
 	rr := rt.New(rt.Opts{})
@@ -773,4 +776,74 @@ func c04Refill(w *fw.W, idx int) {
 		w.Violation("total-steps-below-steps", "", p.src)
 	}
 	w.CoverKey(fmt.Sprintf("refill|%s|N=%d", p.name, N/4))
+}
+
+// c04TailLimitDeepBodies: the tail-iteration bound for loops whose body makes, before the
+// bound is due, non-tail recursions that go deeper from turn to turn - deeper than the
+// stack of this runtime has ever been, through 2^k-1, 2^k, 2^k+1 frames - so that the bound
+// is checked on a frame that was live while the stack grew past every size it had before
+// (the loops above stay below 64 frames).  The recursion sits in a non-final body form or
+// in the argument of the tail call; the loop starts at the top level or at the bottom of a
+// call chain.  A stream of its own ("tail-depth") keeps the draws of the cases above.
+func c04TailLimitDeepBodies(w *fw.W, idx int) bool {
+	r := w.RNG(idx, "tail-depth")
+	for k := 0; k < 6; k++ {
+		ds := c02DepthSchedule(r, "quick")
+		for i := range ds {
+			if ds[i] > 400 {
+				ds[i] = 400 - r.Intn(6)
+			}
+		}
+		deepTurns := 0 // the turns up to the deepest one
+		for i, d := range ds {
+			if d >= ds[deepTurns] {
+				deepTurns = i
+			}
+		}
+		lim := deepTurns + r.Range(2, 12)
+		n := lim + r.Range(-3, 5)
+		if n < 0 {
+			n = 0
+		}
+		var sb strings.Builder
+		sb.WriteString("(set 'c04-depths '(")
+		for _, d := range ds {
+			fmt.Fprintf(&sb, "%d ", d)
+		}
+		fmt.Fprintf(&sb, "))\n(defun depth-of (n) (let ([t (- %d n)]) (if (< t %d) (nth c04-depths t) 0)))\n", n, len(ds))
+		sb.WriteString("(defun deep (k) (if (<= k 0) 0 (+ 1 (deep (- k 1)))))\n")
+		where := []string{"body-form", "tail-call-argument"}[k%2]
+		name := "spin"
+		if k%3 == 2 {
+			name = "spin0"
+		}
+		if where == "body-form" {
+			fmt.Fprintf(&sb, "(defun %s (n) (deep (depth-of n)) (if (<= n 0) 'done (%s (- n 1))))\n", name, name)
+		} else {
+			fmt.Fprintf(&sb, "(defun %s (n) (if (<= n 0) 'done (%s (- n 1 (* 0 (deep (depth-of n)))))))\n", name, name)
+		}
+		if k%3 == 2 {
+			sb.WriteString("(defun start (k n) (if (<= k 0) (spin0 n) (identity (start (- k 1) n))))\n(defun spin (n) (start 40 n))\n")
+		}
+		fmt.Fprintf(&sb, "(handler-bind ((condition (lambda (c &rest a) 'caught))) (spin %d))\n", n)
+		src := sb.String()
+		rr := rt.New(rt.Opts{MaxTail: lim})
+		t := rr.Run("c04", src)
+		w.Eval(1)
+		class := "body-recursion-deeper-each-turn/" + where
+		switch {
+		case t.IsErr:
+			w.Violation("tail-limit-not-catchable:"+class, fmt.Sprintf("MaxTailIterations=%d n=%d: %s %s", lim, n, t.Cond, t.Msg), src)
+			return false
+		case n <= lim && t.Value != "'done":
+			w.Violation("tail-limit-premature:"+class, fmt.Sprintf("MaxTailIterations=%d: a loop of %d turns was refused (%s)", lim, n, t.Outcome()), src)
+			return false
+		case n > lim+1 && t.Value != "'caught":
+			w.Violation("tail-limit-not-enforced:"+class, fmt.Sprintf("MaxTailIterations=%d: a loop of %d turns whose body recursed %v levels deep in its first turns completed (%s)", lim, n, ds, t.Outcome()), src)
+			return false
+		}
+		w.Count("tail_limit_loops_with_deepening_bodies", 1)
+		w.CoverKey(fmt.Sprintf("tail-deep|%s|%d|%v|%s", where, lim, ds, t.Value))
+	}
+	return true
 }
